@@ -824,6 +824,23 @@ class _GenerateRenderMethod:
             # if filter given as a function, get just the identifier portion
             if e == "n":
                 continue
+            try:
+                parsed = _py_ast.parse(e, mode="eval").body
+            except SyntaxError:
+                parsed = None
+            if parsed is not None and not isinstance(
+                parsed,
+                (
+                    _py_ast.Name,
+                    _py_ast.Attribute,
+                    _py_ast.Call,
+                    _py_ast.Subscript,
+                ),
+            ):
+                # a conditional, boolean or lambda expression that evaluates
+                # to the filter: called as a whole
+                target = "(%s)(%s)" % (e, target)
+                continue
             m = re.match(r"(.+?)(\(.*\))", e)
             if m:
                 ident, fargs = m.group(1, 2)
